@@ -576,7 +576,7 @@ func c20Fetch(x *xctx) *violation {
 // a2lSession scripts `addr2line -aif -e file`: for every input line (a hex
 // address) it prints the address and then (function, file:line) pairs, inlined
 // frames first. A pure function of its input.
-type a2lSession struct{}
+type a2lSession struct{ die uint64 }
 
 func toolFrames(addr uint64) []plugin.Frame {
 	n := 1 + int(addr%3)
@@ -587,10 +587,13 @@ func toolFrames(addr uint64) []plugin.Frame {
 	return fr
 }
 
-func (a2lSession) Line(in string) []string {
+func (s a2lSession) Line(in string) []string {
 	v, err := strconv.ParseUint(strings.TrimSpace(in), 16, 64)
 	if err != nil {
 		return []string{"0x0", "??", "??:0"}
+	}
+	if s.die != 0 && v == s.die {
+		return []string{simexec.Die}
 	}
 	out := []string{fmt.Sprintf("0x%016x", v)}
 	if v == ^uint64(0) {
@@ -603,14 +606,17 @@ func (a2lSession) Line(in string) []string {
 }
 
 // llvmSession scripts `llvm-symbolizer --inlining --output-style=JSON`.
-type llvmSession struct{}
+type llvmSession struct{ die uint64 }
 
-func (llvmSession) Line(in string) []string {
+func (s llvmSession) Line(in string) []string {
 	f := strings.Fields(in)
 	if len(f) < 3 {
 		return []string{"{}"}
 	}
 	v, _ := strconv.ParseUint(strings.TrimPrefix(f[len(f)-1], "0x"), 16, 64)
+	if s.die != 0 && v == s.die {
+		return []string{simexec.Die}
+	}
 	type sym struct {
 		Line         int    `json:"Line"`
 		Column       int    `json:"Column"`
@@ -647,13 +653,6 @@ func c20Tools(x *xctx) *violation {
 	K := simrt.KGen
 	freshProcess(true)
 	useLLVM := t.Bool(K, 40)
-	simexec.Register("addr2line", &simexec.Program{Session: func([]string) simexec.LineSession { return a2lSession{} }})
-	simexec.Register("nm", &simexec.Program{Batch: func(args []string, stdin []byte) ([]byte, []byte, int) { return nil, nil, 1 }})
-	tools := "addr2line:/sim/testdata/bin"
-	if useLLVM {
-		simexec.Register("llvm-symbolizer", &simexec.Program{Session: func([]string) simexec.LineSession { return llvmSession{} }})
-		tools += ",llvm-symbolizer:/sim/testdata/bin"
-	}
 	ntasks := 2 + t.Choose(K, 3)
 	if c20Enum {
 		ntasks = 2
@@ -664,6 +663,27 @@ func c20Tools(x *xctx) *violation {
 		for j := 0; j < n; j++ {
 			addrs[i] = append(addrs[i], uint64(0x1000+0x10*t.Choose(K, 64)))
 		}
+	}
+	// Fault mode: the tool that answers the lookups crashes on one of the
+	// requested addresses, while other lookups are in flight.
+	var dieAt uint64
+	if !c20Enum && t.Bool(K, 30) {
+		i := t.Choose(K, ntasks)
+		dieAt = addrs[i][t.Choose(K, len(addrs[i]))]
+	}
+	a2lDie, llvmDie := dieAt, uint64(0)
+	if useLLVM {
+		a2lDie, llvmDie = 0, dieAt
+		if dieAt != 0 && t.Bool(K, 30) {
+			a2lDie = dieAt // a fallback tool, should there be one, crashes too
+		}
+	}
+	simexec.Register("addr2line", &simexec.Program{Session: func([]string) simexec.LineSession { return a2lSession{a2lDie} }})
+	simexec.Register("nm", &simexec.Program{Batch: func(args []string, stdin []byte) ([]byte, []byte, int) { return nil, nil, 1 }})
+	tools := "addr2line:/sim/testdata/bin"
+	if useLLVM {
+		simexec.Register("llvm-symbolizer", &simexec.Program{Session: func([]string) simexec.LineSession { return llvmSession{llvmDie} }})
+		tools += ",llvm-symbolizer:/sim/testdata/bin"
 	}
 	toggler := t.Bool(K, 40)
 	var finalState string
@@ -729,8 +749,19 @@ func c20Tools(x *xctx) *violation {
 		v.Class = "seq-" + v.Class
 		return v
 	}
+	// With a crashing tool a lookup may fail (which ones depends on what was
+	// asked before the crash), but an answer, if given, is the right one.
+	rightOrError := func(a uint64, s string) bool {
+		return s == framesString(toolFrames(a), nil) || strings.HasPrefix(s, "error: ")
+	}
 	for i := range want {
 		for j, s := range want[i] {
+			if dieAt != 0 {
+				if !rightOrError(addrs[i][j], s) {
+					return violf("seq-tools-wrong-answer", "sequential SourceLine(%#x) with the tool crashing at %#x gave %q: neither the tool's answer nor an error", addrs[i][j], dieAt, s)
+				}
+				continue
+			}
 			exp := framesString(toolFrames(addrs[i][j]), nil)
 			if s != exp {
 				return violf("tools-setup", "sequential SourceLine(%#x) gave %q, the scripted tool answers %q", addrs[i][j], s, exp)
@@ -744,6 +775,12 @@ func c20Tools(x *xctx) *violation {
 	}
 	for i := range want {
 		for j := range want[i] {
+			if dieAt != 0 {
+				if !rightOrError(addrs[i][j], got[i][j]) {
+					return violf("tools-wrong-answer", "concurrent SourceLine(%#x) with the tool crashing at %#x gave %q: neither the tool's answer nor an error", addrs[i][j], dieAt, got[i][j])
+				}
+				continue
+			}
 			if got[i][j] != want[i][j] {
 				return violf("tools-crosstalk", "concurrent SourceLine(%#x) returned %q, sequentially it returns %q (requests and responses of different callers interleaved on the tool's pipes)", addrs[i][j], got[i][j], want[i][j])
 			}
@@ -751,6 +788,9 @@ func c20Tools(x *xctx) *violation {
 	}
 	if !strings.Contains(finalState, "fast=true") || !strings.Contains(finalState, `nm="/sim/testdata/nmdir/nm"`) {
 		return violf("tools-config-lost", "after concurrent SetTools(...nm:/sim/testdata/nmdir) and SetFastSymbolization(true) had both returned, the configuration is %s: one of the two updates was lost", finalState)
+	}
+	if dieAt != 0 {
+		x.fault("exec:tool-crashes-mid-session", 1)
 	}
 	if res.Switches > 0 {
 		x.probe("switch_during_tool_access")
